@@ -17,12 +17,10 @@ if rc != 0:
 m = json.load(open(d + "/meta.json"))
 r = m["lead_confirmation"]
 evp = "/verif/evidence/%s.json" % pid
-bak = open(evp).read()
 try:
     t0 = time.time()
     rc, out = sh("./vcheck %s --tier quick" % pid, "/verif", dict(env, VERIF_REPO=wt, VERIF_NO_CONFIRM="1"))
 finally:
-    open(evp, "w").write(bak)
     sh("git checkout -- . && git clean -fdq", wt)
 viol = [l[:400] for l in out.splitlines() if l.startswith("VIOLATION")][:6]
 caught = rc == 1 and any(("property=%s" % pid) in l for l in viol)
